@@ -12,10 +12,15 @@ Fixpoint text_eqb (a b : text) : bool :=
   | _, _ => false
   end.
 
+(* output: the sequence of IO::print / IO::println calls *)
+Inductive chunk := CPrint (s : text) | CPrintln (s : text).
+
 Inductive ekind := ESyntax | EType | ERuntime | EUnexpected.
 (* Error tags: message text is not modelled, except the payload of _এরর(m) and the step-limit marker *)
 Inductive etag := TagGeneric | TagUser (msg : text) | TagCyclic.
-Record perr := mkErr { e_kind : ekind; e_line : N; e_file : text; e_tag : etag }.
+(* [e_out]: what the program had written when the error was raised (newest first); [] for lexer/parser errors *)
+Record perr := mkErr { e_kind : ekind; e_line : N; e_file : text; e_tag : etag; e_out : list chunk }.
+Notation mkErr0 k l f t := (mkErr k l f t []).
 
 (* Every Rust operation that can panic is an explicit [Panic] outcome of the model, every unbounded
    Rust loop is recursion on fuel with the distinct outcome [OutOfFuel]. *)
@@ -28,7 +33,7 @@ Definition bind {A B} (x : outcome A) (f : A -> outcome B) : outcome B :=
 Notation "'do' x <- a ; b" := (bind a (fun x => b)) (at level 200, x name, a at level 100, b at level 200).
 Notation "'do' ' p <- a ; b" := (bind a (fun x => match x with p => b end)) (at level 200, p pattern, a at level 100, b at level 200).
 
-Notation err k line file := (Err (mkErr k line file TagGeneric)).
+Notation err k line file := (Err (mkErr k line file TagGeneric [])).
 
 Definition is_ok {A} (x : outcome A) : bool := match x with Ok _ => true | _ => false end.
 Definition is_panic {A} (x : outcome A) : bool := match x with Panic _ => true | _ => false end.
